@@ -1,6 +1,7 @@
 """C09 — keep-alive reuse, limits and expiry."""
 from __future__ import annotations
 
+import connlife
 import core
 import poolb1
 import propbase
@@ -9,8 +10,9 @@ ID = "C09"
 MODULE = "HttpcoreModel.Props.C09"
 THEOREMS = [f"Httpcore.C09.{n}" for n in ("idle_bound", "no_expired_left", "assigned_is_available_or_new", "reuse_first_available",
                                            "close_reasons", "idle_closed_only_for_reason", "eviction_reason", "source_counts_idle_only",
-                                           "close_reasons_counterexample_107")]
+                                           "close_reasons_counterexample_107", "in_use_survives_housekeeping", "in_use_not_evicted")] + ["Httpcore.LifeProps.h2_expiry_exact", "Httpcore.LifeProps.h1_expiry_exact", "Httpcore.LifeProps.h1_in_use_never_expires", "Httpcore.LifeProps.h2_in_use_never_expires", "Httpcore.LifeProps.h2_last_close_arms_expiry", "Httpcore.LifeProps.h1_count_exact"]
 TRUSTED = [
+    'life-cycle of the connection objects (ConnLife.lean): gate, _response_closed, aclose and the status predicates are *translated* from http11.py / http2.py on every run (harness/lifetrans.py -> Gen.h1*/Gen.h2*); the remaining steps (stream opened / request backed out / GOAWAY / I/O failure recorded) are hand-written and tied by lock-step: instrumented sub-classes log every life-cycle event of the real objects and the Lean driver replays the log (harness/connlife.py, this run)',
     "Lean 4.33 kernel; axioms per theorem under coverage.theorems",
     "hand-written model Pool.pass (shared with C04/C07), tied by lock-step execution on the real pool with stub connections and by scenario runs with real connections, a virtual clock and server-side closes (this run)",
     "harness/extract.py for the surplus-idle expression (Gen.poolCountsIdleOnly)",
@@ -88,6 +90,7 @@ def run(ctx, driver):
         if len(rec.samples) < 3 and impl["closing"] and impl["created"]:
             rec.samples.append({"case": c, "impl": payload["impl"], "model": ans})
     run_scenarios(ctx, rec)
+    connlife.run(rec, driver, rng, (150 if ctx.quick else 3000) * (4 if ctx.broken else 1), (400 if ctx.quick else 8000) * (4 if ctx.broken else 1), "C09")
     return rec.finish("C09/B1 pool pass + B2 keep-alive histories", "as C04 (random stub pools, one pass each); oracles: idle bound, expired/closed never kept or handed "
                       "out, every closed connection has a reason; distinct = distinct cases")
 
